@@ -1,24 +1,37 @@
 -------------------------------- MODULE Gf64 --------------------------------
 (* GF(2^64) arithmetic of UIA2 / 128-EIA1 (ETSI/SAGE UEA2&UIA2 Document 1, 4.3: MUL64x, MUL64xPOW,
    MUL64 with c = 0x1b, i.e. the field GF(2)[x]/(x^64 + x^4 + x^3 + x + 1)) and the polynomial
-   evaluation of 4.4 (EVAL_M).  Elements are 8 octets, most significant first. *)
+   evaluation of 4.4 (EVAL_M).  Interface: elements are 8 octets, most significant first.
+   Internally an element is four 16-bit limbs <<l1,l2,l3,l4>> (TLC integers are 32-bit signed). *)
 EXTENDS CryptoBits
 Z8 == Zeros(8)
-MulX64(v) == LET sh == SubSeq([i \in 1..8 |-> ((v[i] * 2) % 256) + (IF i < 8 THEN v[i+1] \div 128 ELSE 0)], 1, 8) IN
-             IF v[1] >= 128 THEN [sh EXCEPT ![8] = sh[8] ^^ 27] ELSE sh
-RECURSIVE MulXPow64(_,_)
-MulXPow64(v, i) == IF i = 0 THEN v ELSE MulX64(MulXPow64(v, i - 1))
+Limbs(v) == <<v[1] * 256 + v[2], v[3] * 256 + v[4], v[5] * 256 + v[6], v[7] * 256 + v[8]>>
+Octets(l) == <<l[1] \div 256, l[1] % 256, l[2] \div 256, l[2] % 256, l[3] \div 256, l[3] % 256, l[4] \div 256, l[4] % 256>>
+ZL == <<0, 0, 0, 0>>
+XorL(a, b) == <<a[1] ^^ b[1], a[2] ^^ b[2], a[3] ^^ b[3], a[4] ^^ b[4]>>
+\* MUL64x: shift left by one bit; if the top bit was set, xor c = 0x1b
+MulXL(v) == LET c == IF v[1] >= 32768 THEN 27 ELSE 0 IN
+            << ((v[1] * 2) % 65536) + (v[2] \div 32768), ((v[2] * 2) % 65536) + (v[3] \div 32768),
+               ((v[3] * 2) % 65536) + (v[4] \div 32768), ((v[4] * 2) % 65536) ^^ c >>
+BitL(p, i) == (p[(i \div 16) + 1] \div (2^(15 - (i % 16)))) % 2          \* bit i of p, 0 = most significant
+MulX64(v) == Octets(MulXL(Limbs(v)))
+RECURSIVE MulXPowL(_,_)
+MulXPowL(v, i) == IF i = 0 THEN v ELSE MulXL(MulXPowL(v, i - 1))
+MulXPow64(v, i) == Octets(MulXPowL(Limbs(v), i))                        \* MUL64xPOW
 \* MUL64(V, P) = xor over the set bits i of P (bit 0 least significant) of MUL64xPOW(V, i): Horner form from the top bit
-RECURSIVE Horner(_,_,_,_)
-Horner(v, p, i, acc) == IF i = 64 THEN acc
-                        ELSE LET a == MulX64(acc) IN Horner(v, p, i + 1, IF BitOf(p, i) = 1 THEN XorS(a, v) ELSE a)
-Mul64(v, p) == Horner(v, p, 0, Z8)
+RECURSIVE HornerL(_,_,_,_)
+HornerL(v, p, i, acc) == IF i = 64 THEN acc
+                         ELSE LET a == MulXL(acc) IN HornerL(v, p, i + 1, IF BitL(p, i) = 1 THEN XorL(a, v) ELSE a)
+MulL(v, p) == HornerL(v, p, 0, ZL)
+Mul64(v, p) == Octets(MulL(Limbs(v), Limbs(p)))
 \* the definition exactly as written in the standard (slow; used to validate Mul64 in stage A)
 Mul64Def(v, p) == LET R[i \in 0..64] == IF i = 0 THEN Z8
                                          ELSE IF BitOf(p, 64 - i) = 1 THEN XorS(R[i-1], MulXPow64(v, i - 1)) ELSE R[i-1]
                   IN R[64]
 \* j-th 64-bit block (0-based) of a message of nbits bits, zero padded
 Block(msg, nbits, j) == SubSeq([i \in 1..8 |-> IF 8*j + i <= NBytes(nbits) THEN msg[8*j + i] ELSE 0], 1, 8)
-RECURSIVE EvalBlocks(_,_,_,_,_,_)
-EvalBlocks(msg, nbits, P, j, n, ev) == IF j = n THEN ev ELSE EvalBlocks(msg, nbits, P, j + 1, n, Mul64(XorS(ev, Block(msg, nbits, j)), P))
+\* EVAL_M: ev := (ev xor M_j) * P over the n blocks
+RECURSIVE EvalL(_,_,_,_,_,_)
+EvalL(msg, nbits, P, j, n, ev) == IF j = n THEN ev ELSE EvalL(msg, nbits, P, j + 1, n, MulL(XorL(ev, Limbs(Block(msg, nbits, j))), P))
+EvalBlocks(msg, nbits, P, j, n, ev) == Octets(EvalL(msg, nbits, Limbs(P), j, n, Limbs(ev)))
 =============================================================================
